@@ -380,6 +380,35 @@ fn check_query(c: &Query, obs: &mut Obs) -> Result<(), String> {
         obs.class("incomplete PartialDSet");
     }
 
+    // a PartialDSet built through another legal construction path: new(a) + grow(size - a), then the
+    // same set() calls; is_complete must follow the definition at every stage
+    {
+        let a = 1 + (ds.size * 5 + c.seeds.len() * 3 + c.indices.len()) % ds.size;
+        let mut p = rust_dsymbols::dsets::PartialDSet::new(a, ds.dim);
+        if ds.size > a {
+            p.grow(ds.size - a);
+        }
+        ensure!(p.size() == ds.size, "PartialDSet(grown): size() = {} after new({}) + grow({})", p.size(), a, ds.size - a);
+        ensure!(!p.is_complete(), "PartialDSet(grown): is_complete() is true right after new({}) + grow({}) with every operation undefined", a, ds.size - a);
+        let mut todo: Vec<(usize, usize, usize)> = vec![];
+        for i in 0..=ds.dim {
+            for d in 1..=ds.size {
+                if ds.op[i][d] >= d {
+                    todo.push((i, d, ds.op[i][d]));
+                }
+            }
+        }
+        let half = todo.len() / 2;
+        for (k, &(i, d, e)) in todo.iter().enumerate() {
+            if k == half || k + 1 == todo.len() {
+                ensure!(!p.is_complete(), "PartialDSet(grown by {}): is_complete() is true with {} of {} edges still undefined", ds.size - a, todo.len() - k, todo.len());
+            }
+            guarded(|| p.set(i, d, e)).map_err(|m| format!("PartialDSet(grown by {}): set({}, {}, {}) panics: {}", ds.size - a, i, d, e, m))?;
+        }
+        check_dset_queries(&p, ds, "PartialDSet(grown)", true)?;
+        obs.classify(ds.size - a >= 2, "PartialDSet grown by >= 2 chambers");
+    }
+
     let some_r = (0..ds.dim).any(|i| (1..=ds.size).any(|d| ds.r(i, i + 1, d) > 1));
     obs.nontrivial(true);
     obs.classify(ds.size >= 3 && some_r, "size >= 3 with an orbit of length > 1");
